@@ -68,7 +68,7 @@ class Static(BaseComponent):
         if not os.path.exists(location):
             return None
 
-        if not location.startswith(os.path.dirname(self.docroot)):
+        if location != self.docroot and not location.startswith(os.path.join(self.docroot, '')):
             return None  # hacking attempt e.g. /foo/../../../../../etc/shadow
 
         # Is it a file we can serve directly?
